@@ -58,7 +58,8 @@ MANIFEST = {
             'record of its (step, species, layer), also for EMISSIONS files '
             'and grids with length-1 axes. Same for the generic 3-D met '
             'record reader (layer and step discovery by scanning, nz<=3, '
-            'T<=6, 1/6/12-hourly).',
+            'T<=6, 1/6/12-hourly).'
+            ' Also: INSTANT files with several time steps.',
     'note': 'Trusted: z3, the reference layout, the struct-boundary oracle. '
             'temperature, height_pressure and wind record readers are not '
             'encoded (not claimed).',
